@@ -412,12 +412,16 @@ Fixpoint ktrace (ks : kstate) (es : list event) : list obs :=
     (model) and [kstep] (specification) alike; the LTS itself keeps the
     release critical section atomic. *)
 
-Inductive xevent := XE (e : event) | XDialSlow (c : nat) | XCloseGo (h : nat).
+Inductive xevent :=
+| XE (e : event)
+| XDialSlow (c : nat)
+| XCloseGo (h : nat)
+| XAgain (i : nat).   (* one more goroutine calls the done function of thread i while a call of it is in flight *)
 
 Record xobs := XObs {
   x_o : obs;
   x_inclose : list nat;     (* handles whose Close() was entered and is parked *)
-  x_reldone : list nat }.   (* threads whose done() call returned during this event *)
+  x_reldone : list nat }.   (* calls of done() that returned during this event, by thread (with multiplicity) *)
 
 Definition xcanon (x : xobs) : xobs :=
   XObs (canon (x_o x)) (sort_nat (x_inclose x)) (sort_nat (x_reldone x)).
@@ -439,9 +443,11 @@ Record wst := {
   w_closed : list nat;              (* closed handles as of the last observation *)
   w_park : option (nat * nat);      (* handle whose Close is parked, thread that is closing it *)
   w_used : bool;                    (* a lock-kind event was already played during this park *)
-  w_def : option event }.           (* the event that is blocked on the mutex *)
+  w_def : option event;             (* the event that is blocked on the mutex *)
+  w_again : list nat }.             (* extra calls of a done function that is in flight (waiting in once.Do) *)
 
-Definition wmk s sl cl p u d := {| w_s := s; w_slow := sl; w_closed := cl; w_park := p; w_used := u; w_def := d |}.
+Definition wmk s sl cl p u d ag :=
+  {| w_s := s; w_slow := sl; w_closed := cl; w_park := p; w_used := u; w_def := d; w_again := ag |}.
 
 Definition mem (x : nat) (l : list nat) : bool := existsb (Nat.eqb x) l.
 
@@ -454,11 +460,12 @@ Definition run_now (w : wst) (e : event) : wst * xobs :=
   let slowc := filter (fun h => negb (mem h (w_closed w)) && mem h (w_slow w)) (o_closed o) in
   match e, slowc with
   | ERelease i, h :: _ =>
-      (wmk s' (w_slow w) (o_closed o) (Some (h, i)) false None, XObs o [h] [])
+      (wmk s' (w_slow w) (o_closed o) (Some (h, i)) false None (w_again w), XObs o [h] [])
   | ERelease i, [] =>
-      (wmk s' (w_slow w) (o_closed o) (w_park w) (w_used w) (w_def w), XObs o [] (if o_ign o then [] else [i]))
+      (wmk s' (w_slow w) (o_closed o) (w_park w) (w_used w) (w_def w) (w_again w),
+       XObs o [] (if o_ign o then [] else [i]))
   | _, _ =>
-      (wmk s' (w_slow w) (o_closed o) (w_park w) (w_used w) (w_def w), XObs o [] [])
+      (wmk s' (w_slow w) (o_closed o) (w_park w) (w_used w) (w_def w) (w_again w), XObs o [] [])
   end.
 
 Definition xignored (w : wst) : wst * xobs := (w, XObs (quiet_obs true w) [] []).
@@ -472,10 +479,10 @@ Definition xrun (w : wst) (xe : xevent) : wst * xobs :=
           if lock_kind e then
             if w_used w then xignored w
             else
-              let w1 := wmk (w_s w) (w_slow w) (w_closed w) (w_park w) true (w_def w) in
+              let w1 := wmk (w_s w) (w_slow w) (w_closed w) (w_park w) true (w_def w) (w_again w) in
               if match e with ERelease i => Nat.eqb i closer | _ => false end then xignored w1
               else if needs_lock (w_s w) e
-                   then (wmk (w_s w) (w_slow w) (w_closed w) (w_park w) true (Some e),
+                   then (wmk (w_s w) (w_slow w) (w_closed w) (w_park w) true (Some e) (w_again w),
                          XObs (quiet_obs false w) [] [])
                    else run_now w1 e
           else
@@ -486,19 +493,35 @@ Definition xrun (w : wst) (xe : xevent) : wst * xobs :=
       end
   | XDialSlow c =>
       let '(s', o) := inner (w_s w) (EDial c true) in
-      (wmk s' (if o_ign o then w_slow w else c :: w_slow w) (o_closed o) (w_park w) (w_used w) (w_def w),
+      (wmk s' (if o_ign o then w_slow w else c :: w_slow w) (o_closed o) (w_park w) (w_used w) (w_def w) (w_again w),
        XObs o [] [])
   | XCloseGo h =>
       match w_park w with
       | Some (h', closer) =>
           if Nat.eqb h h' then
-            let w1 := wmk (w_s w) (w_slow w) (w_closed w) None false None in
-            match w_def w with
-            | None => (w1, XObs (quiet_obs false w) [] [closer])
-            | Some e =>
-                let '(w2, xo) := run_now w1 e in
-                (w2, XObs (x_o xo) (x_inclose xo) (closer :: x_reldone xo))
-            end
+            let w1 := wmk (w_s w) (w_slow w) (w_closed w) None false None (w_again w) in
+            let '(w2, xo) :=
+              match w_def w with
+              | None => (w1, XObs (quiet_obs false w) [] [])
+              | Some e => run_now w1 e
+              end in
+            (* the closer's done() returns, then the blocked event runs; callers
+               waiting in once.Do of a done function that has now returned
+               return too (sync.Once lets them go when the function is through) *)
+            let rel := closer :: x_reldone xo in
+            let back := filter (fun a => mem a rel) (w_again w) in
+            let keep := filter (fun a => negb (mem a rel)) (w_again w) in
+            (wmk (w_s w2) (w_slow w2) (w_closed w2) (w_park w2) (w_used w2) (w_def w2) keep,
+             XObs (x_o xo) (x_inclose xo) (rel ++ back))
+          else xignored w
+      | None => xignored w
+      end
+  | XAgain i =>
+      match w_park w with
+      | Some (h, closer) =>
+          if Nat.eqb i closer || match w_def w with Some (ERelease j) => Nat.eqb i j | _ => false end
+          then (wmk (w_s w) (w_slow w) (w_closed w) (w_park w) (w_used w) (w_def w) (i :: w_again w),
+                XObs (quiet_obs false w) [] [])
           else xignored w
       | None => xignored w
       end
@@ -533,8 +556,8 @@ Definition k_needs (ks : kstate) (e : event) : bool :=
   | _ => false
   end.
 
-Definition xm_init : @wst state := wmk init [] [] None false None.
-Definition xk_init : @wst kstate := wmk kinit [] [] None false None.
+Definition xm_init : @wst state := wmk init [] [] None false None [].
+Definition xk_init : @wst kstate := wmk kinit [] [] None false None [].
 
 Definition xmrun := xrun mrun m_needs.
 Definition xkstep := xrun kstep k_needs.
